@@ -283,8 +283,15 @@ def build(spec):
         shape = tuple(ix.size_of(c) for ix, c in zip(indices, sec))
         return _block_data(spec, sec, shape)
 
+    seed_ = int(spec.get("seed", 0) or 0)
+    # argument forms decided by the data seed: the symmetry of a dynamic class
+    # as an object instead of its name; a zero total charge left out
+    symarg = sr.get_symmetry(spec["sym"]) if (seed_ // 13) % 3 == 0 else spec["sym"]
+    zero_omitted = (seed_ // 17) % 3 == 0 and charge == GROUPS[spec["sym"]].zero
     if via in ("random", "from_fill_fn"):
-        symkw = {"symmetry": spec["sym"]} if dynamic else {}
+        symkw = {"symmetry": symarg} if dynamic else {}
+        if zero_omitted:
+            charge = None
         if via == "random":
             dist = "normal" if spec.get("dist") != "uniform" else "uniform"
             x = cls.random(indices, charge=charge, seed=spec["seed"], dist=dist,
@@ -309,8 +316,8 @@ def build(spec):
     blocks = {sec: data(sec) for sec in sectors}
     if via == "from_blocks" and blocks:
         duals = [ix.dual for ix in indices]
-        return cls.from_blocks(blocks, duals, charge=charge,
-                               symmetry=spec["sym"] if dynamic else None, **kw)
+        return cls.from_blocks(blocks, duals, charge=None if zero_omitted else charge,
+                               symmetry=symarg if dynamic else None, **kw)
     if via == "from_dense" and not dynamic and indices:
         # labels of the dense axes, in sorted-charge order of each index
         tmp = cls(indices=indices, charge=charge, blocks=blocks, **kw)
@@ -328,7 +335,7 @@ def build(spec):
             return cls.from_dense(dense, maps, [ix.dual for ix in indices],
                                   charge=charge, invalid_sectors="ignore", **kw)
     if dynamic:
-        kw["symmetry"] = spec["sym"]
+        kw["symmetry"] = symarg
     if (int(spec.get("seed", 0) or 0) // 11) % 5 == 0 and (
             blocks or charge == GROUPS[spec["sym"]].zero):
         # documented form: the total charge left out ("inferred from either
